@@ -150,16 +150,17 @@ def gen_probes(tier):
                     k1, k2 = ratio / g, Fraction(1) / g
                     M_mixed = permitted(r1, c, k1) and permitted(r2, c, k2)
                     # when a magnitude is so large that the *common unit's* own factors are involved the statement is the same predicate; keep it
-                    fams = [("mixed_ops", "bool e = (a == b); bool l = (a < b); auto s = a + b; (void)e; (void)l; (void)s;", False),
-                            ("mixed_cmp", "bool x = (a != b) || (a <= b) || (a > b) || (a >= b); (void)x;", False),
-                            ("mixed_sub_minmax", "auto d = a - b; auto m = min(a, b); auto n = max(b, a); (void)d; (void)m; (void)n;", False),
-                            ("mixed_spaceship", "auto c = (a <=> b); (void)c;", True)]
+                    # one operator per probe (a refused `a == b` must not hide an accepted `a < b`).  The form names keep the
+                    # family prefix mixed_; C++20 adds <=>; % exists for integral reps only
+                    ops = [("mixed_eq", "bool r = (a == b); (void)r;", False), ("mixed_ne", "bool r = (a != b); (void)r;", False), ("mixed_lt", "bool r = (a < b); (void)r;", False),
+                           ("mixed_le", "bool r = (a <= b); (void)r;", False), ("mixed_gt", "bool r = (a > b); (void)r;", False), ("mixed_ge", "bool r = (a >= b); (void)r;", False),
+                           ("mixed_plus", "auto r = a + b; (void)r;", False), ("mixed_minus", "auto r = a - b; (void)r;", False), ("mixed_min", "auto r = min(a, b); (void)r;", False),
+                           ("mixed_max", "auto r = max(b, a); (void)r;", False), ("mixed_spaceship", "auto r = (a <=> b); (void)r;", True)]
                     if REPS[r1][2] and REPS[r2][2]:
-                        fams.append(("mixed_mod", "auto r = a % b; (void)r;", False))
-                    for fname, body, cpp20 in fams:
-                        if fname != "mixed_ops" and tier == "quick" and rnd.random() < 0.5:
-                            continue
-                        probes.append(dict(base, id=pid, form=fname, model=M_mixed, expect="accept" if M_mixed else "reject", dedup_key=(rs, c), cpp20=cpp20,  # (the families share the conversion whose static_assert fires once per TU)
+                        ops.append(("mixed_mod", "auto r = a % b; (void)r;", False))
+                    chosen = ops if tier != "quick" else rnd.sample(ops, 4)
+                    for fname, body, cpp20 in chosen:
+                        probes.append(dict(base, id=pid, form=fname, model=M_mixed, expect="accept" if M_mixed else "reject", dedup_key=(rs, c), cpp20=cpp20,  # (the operators share the conversion whose static_assert fires once per TU)
                                            text=f"void vf_p{pid}({q1} a, {q2} b) {{ {body} }}"))
                         pid += 1
                 if M and REPS[r2][2] and REPS[r1][2] and ratio != "irr":
